@@ -213,6 +213,18 @@ def _run_case(case: dict, judges: list[str], opts: dict):
         seqs.append(((("unroll", "inline built-in", "unroll"), "unroll+inline-builtin+unroll"),
                      (("inline built-in", "unroll", "inline built-in"), "inline-builtin+unroll+inline-builtin"))
                     [len(case["grammar"]) % 2])
+        # the in-place pass "inline silent" needs the dict order of the user rules
+        order = " ".join(str(syms.rule(n)) for n, r0 in pI.rules.items()
+                         if not isinstance(r0, BuiltInRule) and n in syms.exported)
+        seqs.append((("inline silent",), "inline-silent"))
+        seqs.append(((("inline silent", "inline silent"), "inline-silent+inline-silent"),
+                     (("unroll", "inline silent", "inline built-in"), "unroll+inline-silent+inline-builtin"))
+                    [len(case["grammar"]) % 2])
+        any_id = syms.ids.get("ANY", 1000000)
+        if not getattr(syms, "user_skip", False):     # never_skips_trivia looks a user rule SKIP up by name
+            seqs.append((("skip",), "skip"))
+            seqs.append(((("unroll", "skip"), "unroll+skip"), (("skip", "inline silent", "skip"), "skip+inline-silent+skip"))
+                        [len(case["grammar"]) % 2])
         for pnames, key in seqs:
             pname = " + ".join(pnames)
             try:
@@ -220,7 +232,7 @@ def _run_case(case: dict, judges: list[str], opts: dict):
                 p1 = _Parser.from_grammar(case["grammar"], optimizer=_Opt(step))
                 roots = list(syms.exported) + (["SKIP"] if "SKIP" in p1.rules and "SKIP" not in syms.exported else [])
                 sexp_1, _ = export_parser(p1, roots=roots, syms=syms)
-                ans = _drv.ask(f"U {key} ({bis}) " + sexp_1)
+                ans = _drv.ask(f"U {key} ({bis}) (order {order}) (any {any_id}) " + sexp_1)
             except ExportError as e:
                 ans = f"EXPORT {e}"
             except Exception as e:  # noqa: BLE001
@@ -346,6 +358,31 @@ def _passes(case: dict):
     return [by[n] for n in spec]
 
 
+_CANARY = None
+
+
+def _canary_check() -> list[str]:
+    global _CANARY
+    if _CANARY is None:
+        from pest import Parser
+        p = Parser.from_grammar('canary = { "c" }', optimizer=None)
+        ns: dict = {"__name__": "generated_canary"}
+        exec(compile(p.generate(), "<canary>", "exec"), ns)  # noqa: S102
+        _CANARY = (p, ns["parse"])
+    bad = []
+    for nm, fn in (("interpreter", lambda: _CANARY[0].parse("canary", "c")),
+                   ("generated module", lambda: _CANARY[1]("canary", "c"))):
+        try:
+            pairs = list(fn())
+            ok = (len(pairs) == 1 and pairs[0].tag is None and pairs[0].name == "canary"
+                  and (pairs[0].start, pairs[0].end) == (0, 1) and not list(pairs[0].children))
+        except Exception:  # noqa: BLE001
+            ok = False
+        if not ok:
+            bad.append(nm)
+    return bad
+
+
 def judge(judges, lines, res, case, rule, text, k, names_ok, tags_ok, rule_silent, uses_soi, b, syms, opts):
     import impl
     v = []
@@ -385,6 +422,12 @@ def judge(judges, lines, res, case, rule, text, k, names_ok, tags_ok, rule_silen
                         r2 = None   # the first call finished: a timer firing on the repeat is load, not a verdict
                     if r2 is not None and impl.render(r2, syms) != lines[md]:
                         v.append((j, f"mode {md}: repeating the call gave a different result: {impl.render(r2, syms)[:200]}"))
+            # determinism across calls: whatever was parsed so far, an unrelated parser must still return the same
+            # result for the same call (state that outlives a parse() shows here even when every repetition of
+            # the polluted call is polluted the same way)
+            for nm in _canary_check():
+                v.append((j, f"after these calls, parse('canary', 'c') on an unrelated parser ({nm}) no longer returns its "
+                             "single untagged pair: the result of a call depends on earlier calls"))
         elif j == "C06":
             for md in have:
                 r = res[md]
